@@ -1509,14 +1509,31 @@ class C16(Property):
         return [c, d, l]
 
     def _snapshot(self, tb):
-        walk, fids = [], {}
+        walk, fids, gids = [], {}, []
         t = tb
         while t is not None:
             fr = t.tb_frame
             co = fr.f_code
             walk.append([co.co_filename, t.tb_lineno, co.co_name, fids.setdefault(id(fr), len(fids)),
                          self._look(co.co_filename, t.tb_lineno, fr.f_globals), max(t.tb_lasti, 0)])
+            gids.append(id(fr.f_globals))
             t = t.tb_next
+        # Each lookup is observed reduced to the frame's own line.  That is enough as long as the source a file name
+        # leads to does not depend on who asks.  It does when the only source is a module's __loader__ (no cache entry,
+        # no file on disk) and frames with DIFFERENT globals carry that file name (code compiled under the name of
+        # another module's file): the first frame that finds a source fills linecache, and every later frame is shown
+        # its own line number of THAT text, which the reduced observation of the later frame does not contain.
+        # Such a traceback is outside the model (no model line); the interpreter's own text still judges the case.
+        by_file = {}
+        for w, g in zip(walk, gids):
+            if w[4] is not None:
+                by_file.setdefault(w[0], []).append((w[4], g))
+        for fn, looks in by_file.items():
+            loaderish = [(lk, g) for lk, g in looks if lk[0][0] == 'a' and lk[1][0] == 'n']
+            if len({g for _, g in loaderish}) > 1 and any(lk[2][0] == 'y' for lk, _ in loaderish):
+                for w in walk:
+                    if w[0] == fn:
+                        w[4] = None
         return walk
 
     @staticmethod
